@@ -89,3 +89,54 @@ func c03Hand(r *lp.Run, drv *gc.Driver, pkg *gc.Pkg) {
 		r.Fail(*f)
 	}
 }
+
+// the allOf merge of numeric bounds against the Lean model BoundM (driver tag bmerge): every combination of
+// absent / inclusive / exclusive bounds on a small grid, equal bounds, and bounds beyond 2^53 (where a comparison
+// through float64 no longer tells neighbours apart)
+func c03BoundMerge(r *lp.Run, rng *lp.Rand) {
+	vals := []string{"", "0", "5", "10", "-3", "9007199254740992", "9007199254740993", "-9007199254740993", "9223372036854775807"}
+	flag := func(b bool) string {
+		if b {
+			return "1"
+		}
+		return "0"
+	}
+	dash := func(s string) string {
+		if s == "" {
+			return "-"
+		}
+		return s
+	}
+	one := func(mx1 string, e1 bool, mn1 string, f1 bool, mx2 string, e2 bool, mn2 string, f2 bool) {
+		out := lp.Guard(func() string {
+			mx, ex, mn, fx, err := gen.VerifMergeBounds(mx1, e1, mn1, f1, mx2, e2, mn2, f2)
+			if err != nil {
+				return "err"
+			}
+			return dash(mx) + " " + flag(ex) + " " + dash(mn) + " " + flag(fx)
+		})
+		line := strings.Join([]string{dash(mx1), flag(e1), dash(mn1), flag(f1), dash(mx2), flag(e2), dash(mn2), flag(f2)}, " ")
+		r.Case("bmerge", line, out, "bmerge", mx1 != "" && mx2 != "" || mn1 != "" && mn2 != "")
+	}
+	// upper bounds exhaustively on the grid (lower side absent), then the mirror image, then random mixtures
+	for _, a := range vals {
+		for _, b := range vals {
+			for m := 0; m < 4; m++ {
+				one(a, m&1 != 0, "", false, b, m&2 != 0, "", false)
+				one("", false, a, m&1 != 0, "", false, b, m&2 != 0)
+			}
+		}
+	}
+	for i := 0; i < r.N(2000, 30000); i++ {
+		p := func() string {
+			if rng.Chance(20) {
+				return ""
+			}
+			if rng.Chance(25) {
+				return lp.Pick(rng, vals[1:])
+			}
+			return fmt.Sprint(rng.Intn(21) - 10)
+		}
+		one(p(), rng.Bool(), p(), rng.Bool(), p(), rng.Bool(), p(), rng.Bool())
+	}
+}
